@@ -293,6 +293,42 @@ def second_pass_sweeps(ctx):
         ctx.notes.append('%s (proposed, not registered in known_findings.json): %d witnesses' % (kid, k))
 
 
+def header_domain(ctx, dom):
+    """DOMAIN(hdrok): the syntactic header hypothesis of `C17.create_one_statement_syntactic_header`, evaluated by the driver on the model's tokens before the
+    first BEGIN, against what the REAL splitter computes on the real lexer's tokens of the same header: where the theorem's hypothesis holds, the real
+    `_change_splitlevel` must have returned to level 0 with `_is_create` set, no block open, not in a DECLARE section, and no `;` seen at level <= 0."""
+    from sqlparse import lexer as _lexer, tokens as _T
+    from sqlparse.engine.statement_splitter import StatementSplitter
+    extra = ['create trigger t before insert on x for each row begin x; end;', 'create  or replace function f(a int, b varchar(10)) returns int as begin return 1; end;',
+             'CREATE PROCEDURE p(a INT; b INT) BEGIN x; END;', 'create procedure p() declare x int; begin y; end;', 'create procedure p(); begin y; end;',
+             'create procedure p( begin y; end;', 'create function f() returns int if a then begin y; end;', 'select 1; begin x; end']
+    texts = list(dom) + extra
+    outs = ctx.model.ask(['hdrok ' + hexs(s) for s in texts])
+    bad, holds = [], 0
+    for s, o in zip(texts, outs):
+        sp, level, semi0, hdr = StatementSplitter(), 0, False, 0
+        for tt, v in _lexer.tokenize(s):
+            if tt in _T.Keyword and v.upper() == 'BEGIN':
+                break
+            level += sp._change_splitlevel(tt, v)
+            hdr += 1
+            if level <= 0 and tt is _T.Punctuation and v == ';':
+                semi0 = True
+        real_ok = level == 0 and sp._is_create and sp._begin_depth == 0 and not sp._in_declare and not semi0
+        f = o.split()
+        if f[:1] != ['ok'] or int(f[3]) != hdr:
+            bad.append((s, o, 'header of %d tokens' % hdr))
+        elif f[1:3] == ['true', 'true']:
+            holds += 1
+            if not real_ok:
+                bad.append((s, o, 'real splitter after the header: level %d, is_create %s, begin_depth %d, in_declare %s, semicolon at level <= 0: %s' % (level, sp._is_create, sp._begin_depth, sp._in_declare, semi0)))
+    ctx.stream('DOMAIN(hdrok)', inputs=len(texts), lines=len(texts), disagreements=len(bad))
+    ctx.dist['hdrok.holds'] = holds
+    ctx.dist['hdrok.refused'] = len(texts) - holds
+    for s, o, want in bad[:5]:
+        ctx.mismatch('DOMAIN(hdrok)', s, o, want)
+
+
 def run(ctx):
     rng = ctx.rng
     keyword_sweep(ctx)
@@ -319,6 +355,7 @@ def run(ctx):
         ctx.stream('DOMAIN(quiet)', inputs=len(dom), lines=len(dom), disagreements=len(bad))
         for s, o in bad[:5]:
             ctx.mismatch('DOMAIN(quiet)', s, o, 'block statement expected quiet with final level 0')
+        header_domain(ctx, dom)
         streams.s_csl(ctx)
         streams.s_split(ctx, [gen.gsplit(rng) for _ in range(ctx.n(4000, 60000))])
         streams.s_split(ctx, dom)
